@@ -1,5 +1,6 @@
 import SigmaVerif.Model.Cidr
 import SigmaVerif.Lemmas.Cidr
+import SigmaVerif.Lemmas.Cidr6Inj
 /-!
 # C18 — CIDR expansion into wildcard patterns
 
@@ -141,6 +142,26 @@ theorem v6_host (base : Nat) :
 
 example : expand6 (0x20010db8 * 2 ^ 96 + 1) 128 = ["2001:db8::1".toList] := by
   rw [(v6_host _).1]; decide +kernel
+
+/-- `str(IPv6Address(·))` is injective: two different addresses never have the same text (the
+zero compression never merges two addresses). -/
+theorem v6_text_injective (a b : Nat) (ha : a < 2 ^ 128) (hb : b < 2 ^ 128)
+    (h : render6 a = render6 b) : a = b := render6_inj a b ha hb h
+
+/-- IPv6 exactness for host networks: the pattern of a `/128` matches an address iff it is the
+address of the network — for every address, whatever the zero compression does. -/
+theorem v6_host_exact (base a : Nat) (hb : base < 2 ^ 128) (ha : a < 2 ^ 128) :
+    matches6 base 128 a = inNet 128 base 128 a := by
+  have hm : matches6 base 128 a = glob (render6 base) (render6 a) := by
+    simp [matches6, (v6_host base).1]
+  rw [hm, Bool.eq_iff_iff, glob_of_no_star _ (star_not_mem_render6 base), inNet_iff]
+  simp only [Nat.sub_self, Nat.pow_zero, Nat.div_one]
+  exact ⟨fun h => (render6_inj base a hb ha h).symm, fun h => by rw [h]⟩
+
+/-- non-vacuity: `::1/128` matches `::1` and not `::2` -/
+example : matches6 1 128 1 = true ∧ matches6 1 128 2 = false := by
+  rw [v6_host_exact 1 1 (by decide) (by decide), v6_host_exact 1 2 (by decide) (by decide)]
+  decide
 
 /-! ## IPv6: a sufficient condition for completeness -/
 
